@@ -141,6 +141,8 @@ def s_history(draw, max_tests=4, with_run=True, with_tags=True, with_time=True, 
         elif c == "tags":
             new = draw(TAGSET)
             gone = draw(TAGSET) - new
+            if in_test and draw(st.integers(0, 5)) == 0:
+                new, gone = set(), set(TAGS)        # the test drops every tag that is current (also the run-level ones)
             ops.append({"op": "tags", "new": sorted(new), "gone": sorted(gone)})
         elif c == "time":
             ops.append({"op": "time", "t": draw(TIMES)})
